@@ -190,6 +190,21 @@ func (a *nilAn) nonNil(v ssa.Value, at *ssa.BasicBlock, phis map[*ssa.Phi]bool, 
 			}
 		}
 		for i, e := range x.Edges {
+			// the edge itself is the non-nil outcome of a nil test of e (`if e == nil {...}` falling through
+			// to the merge): the predecessor is the testing block, which its own edge does not dominate
+			if p := x.Block().Preds[i]; len(p.Instrs) > 0 && len(p.Succs) == 2 && p.Succs[0] != p.Succs[1] {
+				if ifi, isIf := p.Instrs[len(p.Instrs)-1].(*ssa.If); isIf {
+					if tv, trueIsNonNil, isT := nilTest(ifi.Cond); isT && tv == e {
+						k := 1
+						if trueIsNonNil {
+							k = 0
+						}
+						if p.Succs[k] == x.Block() {
+							continue
+						}
+					}
+				}
+			}
 			var extra ssa.Value
 			if sel != nil {
 				if k, isC := sel.Edges[i].(*ssa.Const); isC && k.Value != nil && k.Value.String() == "false" {
